@@ -49,7 +49,7 @@ def finish(rng, c, force=None):
 
 
 PAIR_KINDS = ['mu1', 'mu1', 'degenerate', 'degenerate', 'mu_one_nested', 'mu_one_cnl', 'gen', 'gen',
-              'legacy_nested', 'legacy_nested_mu', 'legacy_cnl', 'legacy_cnlmu']
+              'legacy_nested', 'legacy_nested_mu', 'legacy_cnl', 'legacy_cnlmu', 'history', 'history']
 LEGACY_FNS = {'legacy_nested': ('nested', 'lognested'), 'legacy_nested_mu': ('nested_mev_mu', 'lognested_mev_mu'),
               'legacy_cnl': ('cnl', 'logcnl'), 'legacy_cnlmu': ('cnlmu', 'logcnlmu')}
 
@@ -74,6 +74,12 @@ def gen_pair_cases(rng, n, plan=None):
             syn = rng.choice(['legacy', 'objects'])
             const_av = rng.random() < 0.2
             name_mode = rng.choice([None, None, 'equal', 'collision', 'mixed']) if syn == 'objects' else None
+        if kind == 'history':
+            fam = rng.choice(['nested', 'nested', 'nested_mu', 'cnl', 'cnlmu'])
+            c = base.gen_history_case(rng, fam, fresh_syntax='legacy', syntax='objects')
+            c['pair_kind'] = 'history'
+            cases.append(c)
+            continue
         if kind.startswith('legacy'):
             syn = 'objects'
             name_mode = name_mode or rng.choice(['equal', 'collision', 'history', 'explicit', 'mixed'])
@@ -244,11 +250,14 @@ def stream_pairs(ctx, n_quick=110, n_thorough=1500):
                     'get_mev_generating_for_nested in each V_i vs exp(V_i + ln G_i) from get_mev_for_nested '
                     '(1e-5 relative), including alternatives outside every nest; nest objects (with user names, equal names, names '
                     'kept from an earlier specification) vs the legacy tuples for nested / nested+mu / cnl / cnl+mu; '
-                    'availabilities given as plain Python numbers with a 0; legacy / object syntax at random; '
+                    'availabilities given as plain Python numbers with a 0; legacy / object syntax at random; HISTORIES: the same '
+                    'nest objects and util / availability dicts re-used over several evaluations with updates in place in '
+                    'between, each evaluation (P, log P, ln G_i, G) compared with the legacy tuple syntax on fresh objects; '
                     'non-trivial = row with an available alternative')
     rng = ctx.sub_rng('pairs')
     cases = [d['case'] for p, d in load_corpus('C06') if d.get('stream') == 'pairs']
-    plan = [('mu1', 'legacy', True, None), ('mu1', 'objects', True, 'collision'),
+    plan = [('history', 'objects', False, None)] * 6
+    plan += [('mu1', 'legacy', True, None), ('mu1', 'objects', True, 'collision'),
             ('mu_one_nested', 'legacy', True, None), ('mu_one_cnl', 'objects', True, None),
             ('degenerate', 'objects', True, None), ('gen', 'legacy', True, None)]
     for kind in ('legacy_nested', 'legacy_nested_mu', 'legacy_cnl', 'legacy_cnlmu'):
@@ -268,7 +277,10 @@ def stream_pairs(ctx, n_quick=110, n_thorough=1500):
             ctx.violation(f'C06/pairs/{kind}/harness', 'the case could not be evaluated', c, None, res)
             continue
         for r in range(len(c['rows'])):
-            bad = oracle_gen(c, res, r) if kind == 'gen' else oracle_pair(c, res, r)
+            if kind == 'history':
+                bad = base.oracle_history(c, res, r, distribution=False)
+            else:
+                bad = oracle_gen(c, res, r) if kind == 'gen' else oracle_pair(c, res, r)
             if bad is None:
                 st.record({'kind': kind, 'skipped': 'no available alternative', 'row': c['rows'][r]}, nontrivial=False)
                 continue
